@@ -895,6 +895,11 @@ def rule_position_kind(P):
             ds = defs.get(var, [])
             ids = {d.id for d in ds}
             return [d for d in ds if any(st == use.id or g.path(st, lambda k: k.id == use.id, avoid=lambda k: k.id in ids) is not None for st, _ in d.succ)]
+        mode = {}           # unpacked-node local -> FULL_ONLY / SPARSE_ONLY (single definition with a literal mode)
+        for v_, ds_ in defs.items():
+            ms = {m_.group(1) for d_ in ds_ for m_ in [re.search(r"unpacked_node::(?:New|newFromNode|newWritable|newRedundant|newIdentity)\(.*,(FULL_ONLY|SPARSE_ONLY)\)$", _nz(d_.ev.get("rhs", "")))] if m_}
+            if len(ms) == 1 and all(re.search(r"unpacked_node::", _nz(d_.ev.get("rhs", ""))) for d_ in ds_):
+                mode[v_] = next(iter(ms))
         idx_uses = {}       # var -> [index(var) call nodes]
         for k in g.nodes:
             if k.kind == "call" and k.ev["q"] == M + "unpacked_node::index" and k.ev.get("args") and re.fullmatch(r"\w+", _nz(k.ev["args"][0])):
@@ -925,6 +930,26 @@ def rule_position_kind(P):
                                "`%s` is a position in a sparse node here (the same definition feeds index(%s)) but is passed to %s as the variable's value: right only while the node is dense from 0" % (a, a, nm), k.line))
                     else:
                         R.ok(iid, where(f, k.line))
+            elif nm in ("down", "edgeval") and args and re.fullmatch(r"\w+", args[0]) and args[0] in defs and _nz(k.ev.get("recv") or "") in mode:
+                # a node unpacked FULL_ONLY is addressed by the variable's value, one unpacked SPARSE_ONLY by position
+                U = _nz(k.ev["recv"])
+                v = args[0]
+                rd = reaching(v, k)
+                rdi = {d.id for d in rd}
+                is_value = bool(rd) and all(re.search(r"->index\(\w+\)", _nz(d.ev.get("rhs", ""))) for d in rd)
+                pos_of = {_nz(u.ev.get("recv") or "") for u in idx_uses.get(v, []) if {d.id for d in reaching(v, u)} & rdi}
+                n += 1
+                R.functions.add(f["inst"])
+                R.paths += 1
+                iid = "%s: %s->%s(%s), %s unpacked %s" % (base_name(f["q"]).replace(M, "")[:50], U, nm, v, U, mode[U])
+                if mode[U] == "FULL_ONLY" and pos_of and U not in pos_of and not is_value:
+                    R.fail(iid, where(f, k.line), Finding(R.rule, f["file"], base_name(f["q"]), "%s->%s(%s)" % (U, nm, v),
+                           "`%s` is a position in the sparse node(s) %s, but `%s` is unpacked FULL_ONLY and is addressed by the variable's value: the two coincide only while the sparse node is dense from 0" % (v, sorted(pos_of), U), k.line))
+                elif mode[U] == "SPARSE_ONLY" and is_value:
+                    R.fail(iid, where(f, k.line), Finding(R.rule, f["file"], base_name(f["q"]), "%s->%s(%s)" % (U, nm, v),
+                           "`%s` holds a variable's value (it is defined by index(·)) but addresses `%s`, which is unpacked SPARSE_ONLY, by position" % (v, U), k.line))
+                else:
+                    R.ok(iid, where(f, k.line))
             elif nm in ("down", "edgeval", "index") and args and re.fullmatch(r"\w+", args[0]) and args[0] in defs:
                 rd = reaching(args[0], k)
                 vals = [d for d in rd if re.fullmatch(r"(?:\w+\()?([\w>\[\].-]+)->index\((\w+)\)\)?", _nz(d.ev.get("rhs", "")))]
@@ -939,9 +964,9 @@ def rule_position_kind(P):
                 R.fail("%s: %s->%s(%s)" % (base_name(f["q"]).replace(M, "")[:60], node, nm, args[0]), where(f, k.line),
                        Finding(R.rule, f["file"], base_name(f["q"]), "%s->%s(%s)" % (node, nm, args[0]),
                                "`%s` holds a value index(·) of `%s` here but is used to address the same node by position" % (args[0], node), k.line))
-    if n < 8:
-        raise AnalysisBroken("level.position-kind: only %d typed position/value uses found, expected ≥8" % n)
-    R.require_floor(8, "typed position / value uses in sparse walks")
+    if n < 40:
+        raise AnalysisBroken("level.position-kind: only %d typed position/value uses found, expected ≥40" % n)
+    R.require_floor(40, "typed position / value uses in sparse walks")
     return R
 
 
